@@ -853,16 +853,39 @@ fn run_duplex(t: char, big: usize, stall_ms: u64) -> (String, String, String, St
     let Some(rep) = *acc.lock().unwrap() else {
         return ("#duplex-setup".into(), "error".into(), "FAIL setup (no Accepted)".into(), "duplex".into())
     };
+    // the connector's node also listens: a connection accepted (a registration) while one of its threads
+    // is stuck inside send() must not hold up the delivery of what arrives on other connections
+    let (_clid, caddr) = c.handler.network().listen(Transport::Tcp, "127.0.0.1:0").unwrap();
     let h = c.handler.clone();
     let sender = std::thread::spawn(move || {
         let m: Vec<u8> = (0..big).map(|i| (i * 13 + i / 257) as u8).collect();
         (h.network().send(ep, &m), m)
     });
-    std::thread::sleep(Duration::from_millis(150));
+    std::thread::sleep(Duration::from_millis(120));
+    let _newcomer = std::net::TcpStream::connect(caddr).ok();
+    std::thread::sleep(Duration::from_millis(30));
     let mut back_status = vec![];
     for i in 0..3u8 {
         back_status.push(rh.network().send(rep, &[0, i]));
         std::thread::sleep(Duration::from_millis(5));
+    }
+    // with a long stall ahead (and no lock shared between the two directions: Tcp, FramedTcp) the small
+    // messages must reach the connector's callback long before its own send() can finish
+    let judge_timely = t != 'W' && stall_ms >= 2500;
+    let mut timely = true;
+    if judge_timely {
+        let until = Instant::now() + Duration::from_millis(1000);
+        loop {
+            let c_bytes: usize = c.messages().iter().map(|d| d.len()).sum();
+            if c_bytes >= 6 {
+                break
+            }
+            if Instant::now() > until {
+                timely = false;
+                break
+            }
+            std::thread::sleep(Duration::from_millis(5));
+        }
     }
     let (st, m) = sender.join().unwrap();
     let deadline = Instant::now() + Duration::from_millis(6000 + stall_ms);
@@ -884,9 +907,17 @@ fn run_duplex(t: char, big: usize, stall_ms: u64) -> (String, String, String, St
     let back_ok = back_flat == vec![0, 0, 0, 1, 0, 2] && (t == 'T' || back.len() == 3);
     let fwd_ok = fwd == m && (t == 'T' || fwd_msgs == 1);
     let sends_ok = st == SendStatus::Sent && back_status.iter().all(|s| *s == SendStatus::Sent);
-    let imp = format!("back={} forward={}", if back_ok { "complete" } else { "incomplete" }, if fwd_ok { "complete" } else { "incomplete" });
-    let oracle = if back_ok && fwd_ok && sends_ok {
+    let imp = format!(
+        "back={} forward={} timely={}",
+        if back_ok { "complete" } else { "incomplete" },
+        if fwd_ok { "complete" } else { "incomplete" },
+        if judge_timely { timely.to_string() } else { "n/a".to_string() }
+    );
+    let oracle = if back_ok && fwd_ok && sends_ok && timely {
         "ok".to_string()
+    }
+    else if !timely {
+        format!("FAIL three 2-byte messages sent to the connector were not delivered within 1 s while one of its threads was inside a send() stalled for {} ms (and a new connection was being accepted)", stall_ms)
     }
     else {
         format!(
@@ -895,6 +926,77 @@ fn run_duplex(t: char, big: usize, stall_ms: u64) -> (String, String, String, St
         )
     };
     (format!("stream duplex {} {} {}", t, big, stall_ms), imp, oracle, format!("duplex{},both-directions,busy-sender", t))
+}
+
+/// a keepalive configuration the OS rejects (an idle time above 32767 s): the connection must work all the
+/// same.  `side` = 'l': the listener is configured, 'c': the connector.  The connector sends five messages
+/// on Connected; the acceptor must observe exactly those.  Run in a child process (`one-badka`): a fault
+/// here can abort the process.
+fn run_badka_inner(t: char, side: char) -> (String, String) {
+    use message_io::adapters::{framed_tcp::{FramedTcpConnectConfig, FramedTcpListenConfig}, tcp::{TcpConnectConfig, TcpKeepalive, TcpListenConfig}};
+    use message_io::network::{TransportConnect, TransportListen};
+    let ka = || TcpKeepalive::new().with_time(Duration::from_secs(12 * 3600));
+    let a = TestNode::new();
+    let c = TestNode::new();
+    let listen = match (side, t) {
+        ('l', 'T') => a.handler.network().listen_with(TransportListen::Tcp(TcpListenConfig::default().with_keepalive(ka())), "127.0.0.1:0"),
+        ('l', _) => a.handler.network().listen_with(TransportListen::FramedTcp(FramedTcpListenConfig::default().with_keepalive(ka())), "127.0.0.1:0"),
+        _ => a.handler.network().listen(transport(t), "127.0.0.1:0"),
+    };
+    let Ok((_lid, addr)) = listen else { return ("setup".into(), "FAIL listen".into()) };
+    let conn = match (side, t) {
+        ('c', 'T') => c.handler.network().connect_with(TransportConnect::Tcp(TcpConnectConfig::default().with_keepalive(ka())), addr),
+        ('c', _) => c.handler.network().connect_with(TransportConnect::FramedTcp(FramedTcpConnectConfig::default().with_keepalive(ka())), addr),
+        _ => c.handler.network().connect(transport(t), addr),
+    };
+    let Ok((ep, _)) = conn else { return ("setup".into(), "FAIL connect".into()) };
+    if c.connected(DELIVERY_TIMEOUT).map(|x| x.1) != Some(true) {
+        return ("not-connected".into(), "FAIL the connection was not established".into())
+    }
+    let sizes = [0usize, 127, 128, 16384, 5];
+    let msgs: Vec<Vec<u8>> = sizes.iter().enumerate().filter(|(_, s)| t != 'T' || **s > 0).map(|(i, s)| make_msg(i, *s)).collect();
+    let statuses: Vec<SendStatus> = msgs.iter().map(|m| c.handler.network().send(ep, m)).collect();
+    let want: Vec<u8> = msgs.concat();
+    let deadline = Instant::now() + DELIVERY_TIMEOUT;
+    loop {
+        let got: usize = a.messages().iter().map(|d| d.len()).sum();
+        if (got >= want.len() && (t == 'T' || a.messages().len() >= msgs.len())) || Instant::now() > deadline {
+            break
+        }
+        std::thread::sleep(Duration::from_millis(5));
+    }
+    std::thread::sleep(Duration::from_millis(100));
+    let got = a.messages();
+    let ok = statuses.iter().all(|s| *s == SendStatus::Sent) && if t == 'T' { got.concat() == want } else { got == msgs };
+    let imp = format!("delivered={}", if ok { "all" } else { "not-all" });
+    let oracle = if ok { "ok".to_string() } else { format!("FAIL statuses {:?}; {} of {} messages ({} of {} bytes) arrived", statuses, got.len(), msgs.len(), got.concat().len(), want.len()) };
+    // leak the nodes when something went wrong: tearing down a node whose descriptor was closed behind its back can abort
+    if !ok {
+        std::mem::forget(a);
+        std::mem::forget(c);
+    }
+    (imp, oracle)
+}
+
+fn run_badka(t: char, side: char) -> (String, String, String, String) {
+    let case = format!("stream badka {} {}", t, side);
+    let tags = format!("badka{},configured,rejected-keepalive", t);
+    let exe = std::env::current_exe().unwrap();
+    let out = std::process::Command::new(exe).args(["one-badka", &t.to_string(), &side.to_string()]).output();
+    match out {
+        Ok(o) => {
+            let text = String::from_utf8_lossy(&o.stdout);
+            let line = text.lines().find(|l| l.starts_with("BADKA\t"));
+            match line {
+                Some(l) => {
+                    let f: Vec<&str> = l.split('\t').collect();
+                    (case, f.get(1).unwrap_or(&"?").to_string(), f.get(2).unwrap_or(&"FAIL ?").to_string(), tags)
+                }
+                None => (case, "crashed".into(), format!("FAIL the process running this scenario died ({}): {}", o.status, String::from_utf8_lossy(&o.stderr).lines().rev().take(3).collect::<Vec<_>>().join(" | ")), tags),
+            }
+        }
+        Err(e) => (case, "setup".into(), format!("FAIL cannot start the child process: {}", e), tags),
+    }
 }
 
 /// C10: several threads (and the receiver's own callback thread of the *sending* node) send on one endpoint
@@ -1045,6 +1147,22 @@ fn main() {
             let w = arg(4);
             if w.is_empty() { "FWT".to_string() } else { w }
         }),
+        "one-badka" => {
+            let t = arg(2).chars().next().unwrap_or('F');
+            let side = arg(3).chars().next().unwrap_or('l');
+            let (i, o) = run_badka_inner(t, side);
+            drop(out);
+            println!("BADKA\t{}\t{}", i, o);
+            std::process::exit(0);
+        }
+        "gen-badka" => {
+            for t in arg(2).chars() {
+                for side in ['l', 'c'] {
+                    let (c, im, o, tg) = run_badka(t, side);
+                    emit(&mut out, &c, &im, &o, &tg);
+                }
+            }
+        }
         "gen-duplex" => {
             for t in arg(2).chars() {
                 let (c, im, o, tg) = run_duplex(t, 24 << 20, arg_u64(3, 700));
@@ -1150,6 +1268,10 @@ fn main() {
                 }
                 else if ws.len() == 5 && ws[0] == "stream" && ws[1] == "size" {
                     let (c, i, o, tg) = run_size(ws[2].chars().next().unwrap_or('W'), ws[3] == "c2a", ws[4].parse().unwrap_or(0));
+                    emit(&mut out, &c, &i, &o, &tg);
+                }
+                else if ws.len() == 4 && ws[0] == "stream" && ws[1] == "badka" {
+                    let (c, i, o, tg) = run_badka(ws[2].chars().next().unwrap_or('F'), ws[3].chars().next().unwrap_or('l'));
                     emit(&mut out, &c, &i, &o, &tg);
                 }
                 else if ws.len() == 5 && ws[0] == "stream" && ws[1] == "duplex" {
